@@ -44,12 +44,19 @@ class Gen:
         self.nsym += 1
         return SymStr((c, ord('z')))
 
+    def order(self, flds):
+        """the order of a node tuple's fields is one symbolic choice per document: as written or reversed (name last)"""
+        if getattr(self, '_rev', None) is None:
+            self._rev = self.choose('fieldorder', ['as-written', 'reversed']) == 'reversed'
+        return list(reversed(flds)) if self._rev else flds
+
     def fld(self, name, val):
         return Agg('tuple', None, (name, val))
 
     def node(self, d, path):
         """-> (Val, reference) ; reference: ('elem', name, attrs[(k, v)], ns or None, [children]) | ('text', s) | ('bad', why) | ('empty',)"""
-        kinds = ['elem', 'text-tuple', 'string', 'other', 'name-and-text', 'no-name-no-text'] if d > 0 else ['elem', 'text-tuple', 'string', 'other', 'name-and-text']
+        kinds = ['elem', 'text-tuple', 'string', 'other', 'name-and-text', 'text-and-name', 'name-and-null-text', 'no-name-no-text'] if d > 0 else \
+            ['elem', 'text-tuple', 'string', 'other', 'name-and-text', 'text-and-name', 'name-and-null-text']
         kind = self.choose('k' + path, kinds)
         if kind == 'string':
             s = self.sym_text('s' + path)
@@ -61,6 +68,13 @@ class Gen:
             return self.V('Tuple', VecV([self.fld('text', self.V('Str', s))])), ('text', s)
         if kind == 'name-and-text':
             return self.V('Tuple', VecV([self.fld('name', self.V('Str', 'n')), self.fld('text', self.V('Str', 'x'))])), ('bad', 'both name and text')
+        if kind == 'text-and-name':
+            # the same malformed node with its fields in the other order (and something in between)
+            return self.V('Tuple', VecV([self.fld('text', self.V('Str', 'x')), self.fld('attrs', self.V('Empty')), self.fld('name', self.V('Str', 'n'))])), ('bad', 'both text and name')
+        if kind == 'name-and-null-text':
+            nm = 'nt' + path
+            fl = [self.fld('text', self.V('Empty')), self.fld('name', self.V('Str', nm))]
+            return self.V('Tuple', VecV(self.order(fl))), ('elem', nm, [], None, [])
         if kind == 'no-name-no-text':
             return self.V('Tuple', VecV([self.fld('attrs', self.V('Empty'))])), ('empty',)
         # element
@@ -114,6 +128,7 @@ class Gen:
             kids = [self.node(d + 1, path + str(i)) for i in range(n)]
             flds.append(self.fld('children', self.V('List', VecV([k[0] for k in kids]))))
             children_ref = [k[1] for k in kids]
+        flds = self.order(flds)
         if bad:
             return self.V('Tuple', VecV(flds)), ('bad', bad)
         return self.V('Tuple', VecV(flds)), ('elem', name, attrs_ref, ns_ref, children_ref)
